@@ -1,2 +1,229 @@
-(* Model for C18 — to be written. Executable definitions only, no proofs. *)
-From WI Require Import Lib.Base Lib.Info.
+(* Model of internal/file/jwt.go (ParseJWT, jwtAttributes, jwtParams, sigAlg, str, unixTime),
+   internal/file/parsers.go:JWTData and internal/file/identifier.go:IsJWT, after the repairs
+   F13 (fixed attribute order), F21 (numeric dates, empty strings) and F22 (JSON objects only).
+   The pre-repair behaviours stay selectable ([parse_jwt_gen false], [convert_orig],
+   [attrs_orig]) so that the refutations of the original code remain checkable.
+   encoding/json is a library ORACLE: [J : bytes -> jres] is what json.Unmarshal into a nil
+   map[string]any returned for those bytes; the harness records it per case.
+   Executable definitions only, no proofs. *)
+From WI Require Import Lib.Base Lib.Info Lib.Time Model.Base64.
+From WI Require gen.JwtParams.
+Open Scope N_scope.
+
+(* ---- what encoding/json hands to the converters (they only look this far) ---- *)
+Inductive jvalue : Type :=
+| JStr (s : bytes)            (* Go string (UTF-8 bytes as decoded by the library) *)
+| JNum (m e : Z)              (* float64 with the exact value m * 2^e *)
+| JBool (b : bool)
+| JNull
+| JArr                        (* []any *)
+| JObj.                       (* map[string]any *)
+
+Definition jmap := list (bytes * jvalue).     (* a Go map: keys pairwise distinct *)
+
+(* json.Unmarshal(data, &m) with m a nil map[string]any *)
+Inductive jres : Type :=
+| JRObject (m : jmap)         (* err == nil, m != nil : the text is a JSON object *)
+| JRNull                      (* err == nil, m == nil : the text is the JSON value null *)
+| JRError.                    (* err != nil : anything else (syntax error, array, number, ...) *)
+
+Definition is_object (r : jres) : bool := match r with JRObject _ => true | _ => false end.
+
+Fixpoint jlookup (k : bytes) (m : jmap) : option jvalue :=
+  match m with
+  | [] => None
+  | (k', v) :: r => if bytes_eqb k k' then Some v else jlookup k r
+  end.
+
+(* ---- jwt.go:23  bytes.Split(data, []byte(".")) ---- *)
+Definition dot : N := 46.
+Fixpoint split_dot (s : bytes) : list bytes :=
+  match s with
+  | [] => [[]]
+  | c :: r =>
+      match split_dot r with
+      | cur :: rest => if c =? dot then [] :: cur :: rest else (c :: cur) :: rest
+      | [] => [[]]              (* unreachable: split_dot never returns [] *)
+      end
+  end.
+
+Record jwt := mkjwt { j_header : jmap; j_payload : jmap; j_sig : bytes }.
+
+(* jwt.go:34-39, 46-51: json.Unmarshal into the (nil) map, then (after F22) the nil check.
+   [strict = false] is the original code: the map was pre-made, "null" left it empty. *)
+Definition unmarshal_map (strict : bool) (r : jres) : result jmap :=
+  match r with
+  | JRObject m => Ok m
+  | JRNull => if strict then Err "not a JSON object" else Ok []
+  | JRError => Err "json.Unmarshal"
+  end.
+
+(* jwt.go:22 ParseJWT *)
+Definition parse_jwt_gen (strict : bool) (J : bytes -> jres) (s : bytes) : result jwt :=
+  match split_dot s with
+  | [h; p; g] =>
+      let* hb := decode_any h in
+      let* hm := unmarshal_map strict (J hb) in
+      let* pb := decode_any p in
+      let* pm := unmarshal_map strict (J pb) in
+      let* gb := decode_any g in
+      Ok (mkjwt hm pm gb)
+  | _ => Err "expected 3 parts"
+  end.
+Definition parse_jwt := parse_jwt_gen true.
+
+(* identifier.go:36 IsJWT *)
+Definition is_jwt (J : bytes -> jres) (s : bytes) : bool := is_ok (parse_jwt J s).
+
+(* ---- converters ---- *)
+(* internal/names constants used by sigAlg *)
+Definition n_sha (bits : string) : bytes := bs "SHA-" ++ bs bits.
+Arguments n_sha bits%string.
+Definition a_hs (b : string) : bytes := bs "HMAC using " ++ n_sha b.
+Definition a_rs (b : string) : bytes := bs "RSA PKCS1 v1.5 with " ++ n_sha b.
+Definition a_es (c b : string) : bytes := bs "ECDSA using " ++ bs c ++ bs " and " ++ n_sha b.
+Definition a_ps (b : string) : bytes := bs "RSA PSS using " ++ n_sha b ++ bs " and MGF1 with " ++ n_sha b.
+Arguments a_hs b%string.
+Arguments a_rs b%string.
+Arguments a_es c%string b%string.
+Arguments a_ps b%string.
+Definition alg_expansion (s : bytes) : option bytes :=
+  if bytes_eqb s (bs "HS256") then Some (a_hs "256")
+  else if bytes_eqb s (bs "HS384") then Some (a_hs "384")
+  else if bytes_eqb s (bs "HS512") then Some (a_hs "512")
+  else if bytes_eqb s (bs "RS256") then Some (a_rs "256")
+  else if bytes_eqb s (bs "RS384") then Some (a_rs "384")
+  else if bytes_eqb s (bs "RS512") then Some (a_rs "512")
+  else if bytes_eqb s (bs "ES256") then Some (a_es "P-256 (secp256r1, prime256v1)" "256")
+  else if bytes_eqb s (bs "ES384") then Some (a_es "P-384 (secp384r1)" "384")
+  else if bytes_eqb s (bs "ES512") then Some (a_es "P-521 (secp521r1)" "512")
+  else if bytes_eqb s (bs "PS256") then Some (a_ps "256")
+  else if bytes_eqb s (bs "PS384") then Some (a_ps "384")
+  else if bytes_eqb s (bs "PS512") then Some (a_ps "512")
+  else None.
+(* jwt.go:111 sigAlg on a string: "<expansion> (<alg>)" for the 12 algorithms, else the string itself *)
+Definition sig_alg (s : bytes) : bytes :=
+  match alg_expansion s with
+  | Some e => e ++ bs " (" ++ s ++ bs ")"
+  | None => s
+  end.
+
+(* the instants time.Format renders with a 4-digit year: 0001-01-01 00:00:00 .. 9999-12-31 23:59:59 UTC *)
+Definition min_sec : Z := (-62135596800)%Z.
+Definition max_sec : Z := 253402300799%Z.
+Definition in_calendar (t : Z) : bool := ((min_sec <=? t) && (t <=? max_sec))%Z.
+(* time.Unix(t, 0).UTC().Format("2006-01-02 15:04:05") *)
+Definition fmt_unix_utc (t : Z) : bytes := fmt_datetime (civil_of_unix t 0).
+
+(* math.Floor of the float64 m * 2^e, exactly *)
+Definition float_floor (m e : Z) : Z :=
+  (if 0 <=? e then m * 2 ^ e else m / 2 ^ (- e))%Z.
+
+(* jwt.go:164 strconv.ParseInt(s, 10, 64): optional sign, one or more ASCII digits, int64 range *)
+Fixpoint digits_val (acc : Z) (l : bytes) : option Z :=
+  match l with
+  | [] => Some acc
+  | c :: r => if (48 <=? c) && (c <=? 57)
+              then digits_val (acc * 10 + Z.of_N (c - 48))%Z r else None
+  end.
+Definition parse_int64 (s : bytes) : option Z :=
+  let unsigned (l : bytes) := match l with [] => None | _ => digits_val 0%Z l end in
+  let v := match s with
+           | 43 :: r => unsigned r
+           | 45 :: r => match unsigned r with Some v => Some (- v)%Z | None => None end
+           | _ => unsigned s
+           end in
+  match v with
+  | Some i => if ((- 2 ^ 63 <=? i) && (i <=? 2 ^ 63 - 1))%Z then Some i else None
+  | None => None
+  end.
+
+(* jwt.go:174 numericDate (the range test is done on the float; same verdict, see unixTime) *)
+Definition numeric_date (t : Z) : option bytes :=
+  if in_calendar t then Some (fmt_unix_utc t) else None.
+
+Inductive conv := CStr | CAlg | CTime | CUnknown.
+
+(* jwt.go:145 str / :111 sigAlg / :159 unixTime after the repair: (value, shown?).
+   unixTime on a string converts the parsed int64 to float64 before the range test; every
+   integer of the calendar range is below 2^53 and the conversion is monotone, so the test on
+   the integer itself gives the same verdict *)
+Definition convert (c : conv) (v : jvalue) : option bytes :=
+  match c, v with
+  | CStr, JStr s => Some s
+  | CAlg, JStr s => Some (sig_alg s)
+  | CTime, JNum m e => numeric_date (float_floor m e)
+  | CTime, JStr s =>
+      match parse_int64 s with
+      | Some i => match numeric_date i with Some d => Some d | None => Some s end
+      | None => Some s
+      end
+  | _, _ => None
+  end.
+
+Record param := mkparam { p_key : bytes; p_label : bytes; p_conv : conv }.
+
+Definition conv_of_name (n : bytes) : conv :=
+  if bytes_eqb n (bs "str") then CStr
+  else if bytes_eqb n (bs "sigAlg") then CAlg
+  else if bytes_eqb n (bs "unixTime") then CTime
+  else CUnknown.
+
+(* T1: the table jwtParams, in the order of the running code (regenerated on every run) *)
+Definition params_of (t : list (bytes * bytes * bytes)) : list param :=
+  map (fun r => match r with (k, l, c) => mkparam k l (conv_of_name c) end) t.
+Definition jwt_params : list param := params_of gen.JwtParams.table.
+
+(* jwt.go:71 jwtAttributes: the registered names in table order (jwtParams, jwt.go:89), each
+   looked up in the map *)
+Definition attrs_in (t : list param) (m : jmap) : list (bytes * bytes) :=
+  flat_map (fun p => match jlookup (p_key p) m with
+                     | Some v => match convert (p_conv p) v with
+                                 | Some s => [(p_label p, s)]
+                                 | None => []
+                                 end
+                     | None => []
+                     end) t.
+Definition attrs_of : jmap -> list (bytes * bytes) := attrs_in jwt_params.
+
+Definition jwt_desc : bytes := bs "JSON Web Token (JWT)".
+Definition sig_label : bytes := bs "Signature".
+
+(* parsers.go:75 JWTData, the part after ParseJWT *)
+Definition describe_in (t : list param) (j : jwt) : info :=
+  Info jwt_desc
+       (attrs_in t (j_header j) ++ attrs_in t (j_payload j)
+          ++ [(sig_label, encode RawURL (j_sig j))]) [].
+Definition describe_jwt : jwt -> info := describe_in jwt_params.
+
+Definition jwt_data (J : bytes -> jres) (s : bytes) : result info :=
+  let* j := parse_jwt J s in Ok (describe_jwt j).
+
+(* ---- the code before the repairs (for the refutations) ---- *)
+(* str / sigAlg / unixTime returned "" for "not shown"; unixTime accepted strings only *)
+Definition convert_orig (c : conv) (v : jvalue) : bytes :=
+  match c, v with
+  | CStr, JStr s => s
+  | CAlg, JStr s => sig_alg s
+  | CTime, JStr s => match parse_int64 s with Some i => fmt_unix_utc i | None => [] end
+  | _, _ => []
+  end.
+(* `for k, v := range m`: [order] is the key order this particular iteration happened to use
+   (Go leaves it unspecified); every key is looked up in the table *)
+Fixpoint find_param (k : bytes) (t : list param) : option param :=
+  match t with
+  | [] => None
+  | p :: r => if bytes_eqb k (p_key p) then Some p else find_param k r
+  end.
+Definition attrs_orig (t : list param) (order : list bytes) (m : jmap) : list (bytes * bytes) :=
+  flat_map (fun k => match jlookup k m, find_param k t with
+                     | Some v, Some p => match convert_orig (p_conv p) v with
+                                         | [] => []
+                                         | s => [(p_label p, s)]
+                                         end
+                     | _, _ => []
+                     end) order.
+Definition describe_orig (t : list param) (oh op : list bytes) (j : jwt) : info :=
+  Info jwt_desc
+       (attrs_orig t oh (j_header j) ++ attrs_orig t op (j_payload j)
+          ++ [(sig_label, encode RawURL (j_sig j))]) [].
